@@ -567,6 +567,14 @@ class Flow:
         return {k: (Flow._subst(v, mapping) if isinstance(v, (dict, list)) else v) for k, v in node.items()}
 
     def _bound_body(self, h):
+        return Flow.bind_params(h['params'], h['args'], h['body'])
+
+    @staticmethod
+    def bind_params(params, args, body):
+        """the body of a helper with its parameters replaced by what the call site passes (references / pointers to designators, and value
+        parameters that the helper never changes, bound to side-effect free expressions)"""
+        h = {'params': params, 'args': args, 'body': body}
+        self = Flow
         mapping = {}
         for p, a in zip(h['params'], h['args']):
             x = strip_all_casts(a)
@@ -574,8 +582,11 @@ class Flow:
                 x = strip_all_casts(x['sub'])
             if isinstance(x, dict) and x.get('k') == 'Ref' and x.get('dk') in ('local', 'parm') and ('&' in p.get('t', '') or p.get('t', '').endswith('*')):
                 mapping[p['id']] = x
+            elif ('&' in p.get('t', '') or p.get('t', '').endswith('*')) and self._stable_value(strip_all_casts(a)):
+                # a reference / pointer bound to a side-effect free designator: *smartPointer, member.data(), a member chain
+                mapping[p['id']] = strip_all_casts(a)
             elif '&' not in p.get('t', '') and not p.get('t', '').endswith('*') and self._stable_value(x) and not self._modified(h['body'], p['id']):
-                # a scalar passed by value and never changed in the helper stands for the (call-free) expression it was given
+                # a value parameter never changed in the helper stands for the (side-effect free) expression it was given
                 mapping[p['id']] = a
         return self._subst(h['body'], mapping)
 
@@ -583,8 +594,23 @@ class Flow:
     def _stable_value(x):
         """member chains on locals / this, locals, literals - nothing that calls or changes anything"""
         for n in walk(x or {}):
-            if n.get('k') not in ('Member', 'Ref', 'Lit', 'Cast', 'This', 'Paren', 'Sizeof'):
-                return False
+            k = n.get('k')
+            if k in ('Member', 'Ref', 'Lit', 'Cast', 'This', 'Paren', 'Sizeof'):
+                continue
+            if k == 'Construct' and (n.get('copyOrMove') or len(n.get('args', [])) == 1):
+                continue     # the copy made for a by-value class parameter
+            if k == 'Un' and n.get('op') in ('*', '&', '-', '+', '!', '~'):
+                continue
+            if k == 'Bin' and n.get('op') in ('+', '-', '*', '/', '%', '<', '>', '<=', '>=', '==', '!=', '&', '|', '^', '<<', '>>', '&&', '||'):
+                continue
+            if k == 'Call' and n.get('ck') == 'operator' and n.get('op') in ('+', '-', '<', '>', '<=', '>=', '==', '!='):
+                continue     # position arithmetic (std::fpos)
+            if k == 'Call' and str(n.get('fn') or '').startswith('operator ') and not n.get('args'):
+                continue     # conversion operator
+            if k == 'Call' and (n.get('fn') in ('data', 'size', 'get', 'cbegin', 'begin') or
+                                (n.get('ck') == 'operator' and n.get('op') in ('*', '->')) or n.get('fn') in ('operator*', 'operator->')):
+                continue     # accessors without side effects
+            return False
         return isinstance(x, dict)
 
     @staticmethod
